@@ -153,6 +153,10 @@ def build_cards(kind, cards, rng, snum=lambda k: k + 1):
     import numpy as np
     from shangrla.core.Audit import CVR
     cvrs, mvrs = [], []
+    # a tally pool's label is any hashable value: strings, numbers, or - in one file - a number and the string that
+    # prints the same (they are different pools)
+    labels = rng.choice([{}, {}, {}, {"P1": 1, "P2": "1"}, {"P1": 7, "P2": 8}])
+    build_cards.labels = labels
     for k, c in enumerate(cards):
         votes = {}
         if c["cs"] != "x":
@@ -162,7 +166,7 @@ def build_cards(kind, cards, rng, snum=lambda k: k + 1):
         pooled = c["pool"] != "none"
         cvrs.append(CVR(id=f"card{k}", votes=votes, phantom=(rng.choice([True, np.bool_(True), 1]) if c["ph"] else
                                                              rng.choice([False, False, 0])),
-                        tally_pool=(c["pool"] if pooled else rng.choice([None, "Q"])),
+                        tally_pool=(labels.get(c["pool"], c["pool"]) if pooled else rng.choice([None, "Q"])),
                         pool=(rng.choice([True, np.bool_(True)]) if pooled else False), sample_num=snum(k)))
         if c["ms"] == "u":      # the flag is not always the literal True (numpy booleans from arrays, 1 from files)
             mvrs.append(CVR(id=f"card{k}", votes={}, phantom=rng.choice([True, True, np.bool_(True), 1])))
@@ -239,7 +243,8 @@ def run_case(tid, kind, u, style, cards, thr, rng, polling=False):
             if decoy is not None:
                 guard("set_tally_pool_means", lambda: decoy.assorter.set_tally_pool_means(cvr_list=cvrs, use_style=style))
             pm = asn.assorter.tally_pool_means or {}
-            out["pool_means"] = {str(p): rs(v) for p, v in pm.items()}
+            inv = {(type(v).__name__, v): k_ for k_, v in getattr(build_cards, "labels", {}).items()}
+            out["pool_means"] = {inv.get((type(p).__name__, p), str(p)): rs(v) for p, v in pm.items()}
             for p in {c["pool"] for c in cards if c["pool"] != "none"}:
                 out["pool_means"].setdefault(p, "exc")
         else:
@@ -261,7 +266,21 @@ def run_case(tid, kind, u, style, cards, thr, rng, polling=False):
         if style and n_upto > 0 and rng.random() < 0.4:
             # the threshold as the sampling step itself leaves it: the first n_upto cards listing the contest
             con.sample_size = n_upto
-            guard("consistent_sampling", lambda: core.with_time_limit(10, CVR.consistent_sampling, cvrs, {"con": con}))
+            if rng.random() < 0.5:
+                # drawn together with a second contest that every card lists and that needs them all: cards drawn for
+                # it after this contest's sample is complete are not this contest's
+                import copy as _copy
+                big = _copy.copy(con)
+                big.id, big.sample_size, big.sample_threshold = "zbig", len(cvrs), None
+                for cv in cvrs:
+                    cv.votes["zbig"] = {}
+                try:
+                    guard("consistent_sampling", lambda: core.with_time_limit(10, CVR.consistent_sampling, cvrs, {"con": con, "zbig": big}))
+                finally:
+                    for cv in cvrs:
+                        cv.votes.pop("zbig", None)
+            else:
+                guard("consistent_sampling", lambda: core.with_time_limit(10, CVR.consistent_sampling, cvrs, {"con": con}))
             rec["thr_route"] = "sampling"
         else:
             con.sample_threshold = snum(thr - 1) if thr > 0 else 0
